@@ -574,6 +574,11 @@ func holderLoad(v ssa.Value, r *c12roles) *ssa.FieldAddr {
 }
 
 func runR12e(c *core.Ctx, r *c12roles, fns []*ssa.Function) {
+	runR12eAs(c, r, fns, "R12e")
+	c.Floor("R12e", 15, "RemoveAndReleaseTree call sites in readers")
+}
+
+func runR12eAs(c *core.Ctx, r *c12roles, fns []*ssa.Function, rule string) {
 	// holder fields per struct type: *Node fields whose loaded value is passed to RemoveAndReleaseTree
 	// somewhere or returned by a method named Read of that type.
 	holders := map[*types.Named]map[*types.Var]bool{}
@@ -665,9 +670,9 @@ func runR12e(c *core.Ctx, r *c12roles, fns []*ssa.Function) {
 				}
 				dfs(ci.Block(), core.InstrIndex(ci)+1, map[*ssa.BasicBlock]bool{})
 				if badPos.IsValid() {
-					c.Bad("R12e", key, badPos, why+": a released (pooled) node stays reachable from the reader")
+					c.Bad(rule, key, badPos, why+": a released (pooled) node stays reachable from the reader")
 				} else {
-					c.OK("R12e", key, core.InstrPos(ci), "holder overwritten on every path after the release")
+					c.OK(rule, key, core.InstrPos(ci), "holder overwritten on every path after the release")
 				}
 				continue
 			}
@@ -676,25 +681,24 @@ func runR12e(c *core.Ctx, r *c12roles, fns []*ssa.Function) {
 				recvT := core.NamedOf(f.Params[0].Type())
 				hs := holders[recvT]
 				if len(hs) == 0 {
-					c.OK("R12e", key, core.InstrPos(ci), "receiver type has no holder field")
+					c.OK(rule, key, core.InstrPos(ci), "receiver type has no holder field")
 					continue
 				}
 				for fld := range hs {
 					k2 := key + " holder " + fld.Name()
 					if clearsHolder(f, p, fld, ci) {
-						c.OK("R12e", k2, core.InstrPos(ci), "holder cleared (guarded by comparison with the parameter, or unconditionally) before the release")
+						c.OK(rule, k2, core.InstrPos(ci), "holder cleared (guarded by comparison with the parameter, or unconditionally) before the release")
 					} else {
-						c.Bad("R12e", k2, core.InstrPos(ci), "Release does not clear holder field "+fld.Name()+" when it refers to the released node")
+						c.Bad(rule, k2, core.InstrPos(ci), "Release does not clear holder field "+fld.Name()+" when it refers to the released node")
 					}
 				}
 				continue
 			}
 			// local value: the use-after-release walk of R12d covers it (no store/return/use afterwards)
 			key += "local"
-			c.OK("R12e", key, core.InstrPos(ci), "released local: later uses are excluded by the R12d use-after-release walk")
+			c.OK(rule, key, core.InstrPos(ci), "released local: later uses are excluded by the R12d use-after-release walk")
 		}
 	}
-	c.Floor("R12e", 15, "RemoveAndReleaseTree call sites in readers")
 }
 
 // readsField: function (transitively, depth-limited, static callees) loads the given field.
